@@ -1,7 +1,7 @@
 (* Entry points of the correspondence check: one call per case record written by the
    harness.  Everything here is executable; nothing is proved in this file. *)
 From VJ Require Import Model.Str Model.Json Model.Ast Model.State Model.Util Model.Text
-  Model.Directive Model.Lower Model.Visitor Model.Types Model.Options Spec.Plain Spec.Pragma Spec.OutViews Lemmas.NodeInd.
+  Model.Directive Model.Lower Model.Visitor Model.Types Model.Options Spec.Plain Spec.Pragma Spec.OutViews Spec.DcViews Lemmas.NodeInd.
 From VJ Require Import Gen.Tables.
 
 Definition jfield_d (k : String.string) (j : jv) : jv :=
@@ -74,6 +74,7 @@ Record case_result := {
   cr_model_out : jv;
   cr_model_diags : list str;
   cr_extra : list (str * str);  (* oracle results etc.: key=value *)
+  cr_views : jv;                (* facts read off the real / model output, for judges that hold the ground truth *)
 }.
 
 Definition b2s (b : bool) : str := if b then [49] else [48].
@@ -167,11 +168,16 @@ Definition run_case (c : jv) : case_result :=
            cr_same_diag := strs_eqb (sort_strs (diags s)) (sort_strs (jstrs (jfield_d "diags" c)));
            cr_model_out := mo;
            cr_model_diags := diags s;
-           cr_extra := (s_ "optcorr", b2s (opt_corr c)) :: (if real_ok then extras c mo else []) |}
+           cr_extra := (s_ "optcorr", b2s (opt_corr c)) :: (if real_ok then extras c mo else []);
+           cr_views := if real_ok then
+                         JObj [(s_ "dc_real", view_dc (dec (jfield_d "output" c)));
+                               (s_ "dc_input", view_dc (dec (jfield_d "input" c)));
+                               (s_ "dc_same", JBool (jv_eqb (view_dc (dec (jfield_d "output" c))) (view_dc (dec mo))))]
+                       else JNull |}
       else {| cr_relevant := false; cr_roundtrip := true; cr_same_status := true;
               cr_same_out := true; cr_same_diag := true; cr_model_out := JNull;
-              cr_model_diags := []; cr_extra := [(s_ "optcorr", b2s (opt_corr c))] |}
+              cr_model_diags := []; cr_extra := [(s_ "optcorr", b2s (opt_corr c))]; cr_views := JNull |}
   | _ => {| cr_relevant := false; cr_roundtrip := true; cr_same_status := true;
             cr_same_out := true; cr_same_diag := true; cr_model_out := JNull;
-            cr_model_diags := []; cr_extra := [] |}
+            cr_model_diags := []; cr_extra := []; cr_views := JNull |}
   end.
